@@ -38,7 +38,7 @@ Definition issuers : list Z := [0; 1; 2; 3].
 
 (* tags of the requests of a history (0 = the front's error responses) *)
 Definition tags_of (ops : list op) : list Z :=
-  0 :: flat_map (fun o => match o with OSend _ _ _ _ tag _ _ _ _ _ _ => [tag] | _ => [] end) ops.
+  0 :: flat_map (fun o => match o with OSend _ _ _ _ tag _ _ _ _ _ _ _ _ => [tag] | _ => [] end) ops.
 
 Definition proj3 (i c t : Z) (l : list item) : list item :=
   filter (fun x => Z.eqb (it_iss x) i && Z.eqb (it_conn x) c && Z.eqb (it_tag x) t) l.
